@@ -29,6 +29,7 @@ type WSet struct {
 	Name  string
 	Elems []WElem
 	Paren bool `json:",omitempty"` // var S = (wire.NewSet(...))
+	AliasOf string `json:",omitempty"` // var S = <other set variable>
 }
 
 type WInjector struct {
@@ -88,7 +89,7 @@ type WOpts struct {
 }
 
 var WireFeatures = []string{"bind", "bind-value-impl", "value", "ivalue", "struct", "struct-fields", "struct-value-consumer", "fieldsof", "fieldsof-value", "fieldsof-ptr",
-	"sets", "nested-sets", "inline-sets", "inline-sets-deep", "struct-unexported-field", "ext-alias-suffix", "ext-name-differs-from-path", "ext-alias-equals-directory", "composite", "same-name-packages-across-files", "fieldsof-twice", "second-injector", "twin-types-in-same-named-packages", "value-ext-var", "build-in-panic", "ivalue-concrete-also-provided", "pkg-level-name-equals-aliased-package", "struct-field-named-like-package", "struct-field-named-like-type", "bind-two-interfaces", "wire-paren", "struct-keyword-field", "struct-noinject-tag", "struct-no-fields", "named-alias", "wire-import-alias", "wire-legacy-build-tag", "wire-sets-in-var-block", "value-ext-nested-selector", "decoy-constructor-in-migrated-package", "struct-in-ext-package", "fieldsof-in-ext-package", "err", "args", "unused-arg", "multi-file", "ext", "bind-foreign-ctor", "bind-split-set", "multi-result"}
+	"sets", "nested-sets", "inline-sets", "inline-sets-deep", "struct-unexported-field", "ext-alias-suffix", "ext-name-differs-from-path", "ext-alias-equals-directory", "composite", "same-name-packages-across-files", "fieldsof-twice", "second-injector", "twin-types-in-same-named-packages", "value-ext-var", "build-in-panic", "wire-set-alias-var", "ivalue-concrete-also-provided", "pkg-level-name-equals-aliased-package", "struct-field-named-like-package", "struct-field-named-like-type", "bind-two-interfaces", "wire-paren", "struct-keyword-field", "struct-noinject-tag", "struct-no-fields", "named-alias", "wire-import-alias", "wire-legacy-build-tag", "wire-sets-in-var-block", "value-ext-nested-selector", "decoy-constructor-in-migrated-package", "struct-in-ext-package", "fieldsof-in-ext-package", "err", "args", "unused-arg", "multi-file", "ext", "bind-foreign-ctor", "bind-split-set", "multi-result"}
 
 func WAllowAll(except ...string) map[string]bool {
 	m := map[string]bool{}
@@ -433,6 +434,7 @@ func GenWire(rt *rapid.T, o WOpts) *WCase {
 		}
 	}
 	g.assemble()
+	g.setAliases()
 	g.parens()
 	// a package-level identifier of the migrated package has the NAME of an external package that
 	// every file imports under an alias: a migrated file must not import it under its plain name
@@ -758,6 +760,50 @@ func (g *wgen) genFieldsOf() {
 }
 
 // assemble computes the needed cone of the last unit, arranges sets/files and the injector.
+// setAliases declares a second variable for some sets (var setab = setaa) and lets every
+// reference go through it.
+func (g *wgen) setAliases() {
+	if !g.o.Allow["wire-set-alias-var"] {
+		return
+	}
+	rename := map[string]string{}
+	for fi := range g.w.Files {
+		f := &g.w.Files[fi]
+		n := len(f.Sets)
+		for si := 0; si < n; si++ {
+			if rapid.IntRange(0, 5).Draw(g.rt, "setaliasvar") == 5 {
+				alias := g.name("Set")
+				rename[f.Sets[si].Name] = alias
+				f.Sets = append(f.Sets, WSet{Name: alias, AliasOf: f.Sets[si].Name})
+				g.w.AddFeature("wire-set-alias-var")
+			}
+		}
+	}
+	if len(rename) == 0 {
+		return
+	}
+	var walk func(es []WElem)
+	walk = func(es []WElem) {
+		for i := range es {
+			if es[i].Kind == "set" {
+				if a, ok := rename[es[i].Set]; ok {
+					es[i].Set = a
+				}
+			}
+			walk(es[i].Inline)
+		}
+	}
+	for fi := range g.w.Files {
+		f := &g.w.Files[fi]
+		for si := range f.Sets {
+			walk(f.Sets[si].Elems)
+		}
+		for ii := range f.Injectors {
+			walk(f.Injectors[ii].Elems)
+		}
+	}
+}
+
 // parens puts some set initialisers and elements into parentheses.
 func (g *wgen) parens() {
 	var walk func(es []WElem)
